@@ -82,6 +82,25 @@ def hexLoop (c : List Nat) : Nat → Nat → Nat → Option (Nat × Nat)
 def hexToNumber (c : List Nat) (base : Nat) : Option Nat :=
   (hexLoop c 4 base 0).map (·.1)
 
+/-- The same loop for any unsigned `Number_T` of `m = 2^bits` values (the library instantiates
+`Number_T = SizeT64` from `Digit::StringToNumber` for `0x…` literals, the tests `SizeT64` through the
+two-argument overload).  `n = end_offset - offset`.  Returns (number, offset). -/
+def hexLoopW (m : Nat) (c : List Nat) : Nat → Nat → Nat → Option (Nat × Nat)
+  | 0, off, num => some (num, off)
+  | n + 1, off, num =>
+    match c[off]? with
+    | none => none
+    | some d =>
+      match hexVal? d with
+      | some v => hexLoopW m c n (off + 1) (((num <<< 4) % m) ||| v)
+      | none => some (num, off)
+
+/-- Positional value of a digit string (specification side): Σ 16^i·dᵢ on top of `acc`. -/
+def hexValue : List Nat → Nat → Nat
+  | [], acc => acc
+  | d :: ds, acc => hexValue ds (acc * 16 + (hexVal? d).getD 0)
+
+
 /-! ## UnEscape (JSONUtils.hpp), A-model: cursors and checked reads -/
 
 /-- `stream.Write(content + a, b - a)`: a block read of `[a, b)`.  `b < a` would be a wrapped
